@@ -37,7 +37,7 @@ ASSUMPTIONS = [
     "predicates are classical values.",
     "Only transforms that expose a plxpr implementation in this tree are compared (currently decompose).",
 ]
-BUDGET = {"quick": {"examples": 110}, "thorough": {"examples": 5000, "shards": 16}}
+BUDGET = {"quick": {"examples": 110}, "thorough": {"examples": 2500, "shards": 8}}
 SHRINK_LISTS = ("body", "true", "false", "meas", "subs")
 
 G1P = ["RX", "RY", "RZ", "PhaseShift"]
